@@ -39,7 +39,7 @@ Qed.
 
 Lemma run_reprepare c s k h qs ks : nth_error (queue s) k = Some (TReprepare h qs ks) -> pool_of s h = PHealthy ->
   exists s', step c s (Run k) = (s', [Sent h (MPrepare qs ks) CReprepare]) /\
-             attempts s' = attempts s ++ [{| a_host := h; a_prep := true; a_done := false |}] /\
+             attempts s' = attempts s ++ [{| a_host := h; a_prep := true; a_done := false; a_page := page_no s |}] /\
              queue s' = remove_nth k (queue s) /\ fin_exc s' = fin_exc s /\ fin_res s' = fin_res s.
 Proof.
   intros N P. cbn [step]. rewrite N. cbn [run_task]. unfold query_or_next. rewrite query_eq.
@@ -57,14 +57,14 @@ Definition id_matches (c : config) (id : Z) : Prop :=
 Lemma run_after_prepare_ok c s k h id : nth_error (queue s) k = Some (TAfterPrepare h (RPrepared id)) ->
   fin_exc s = None -> id_matches c id -> pool_of s h = PHealthy ->
   exists s', step c s (Run k) = (s', [Sent h (MOrig (msg_cl s)) CResend]) /\
-             attempts s' = attempts s ++ [{| a_host := h; a_prep := false; a_done := false |}] /\
+             attempts s' = attempts s ++ [{| a_host := h; a_prep := false; a_done := false; a_page := page_no s |}] /\
              queue s' = remove_nth k (queue s) /\ fin_exc s' = None.
 Proof.
   intros N E M P. cbn [step]. rewrite N. cbn [run_task]. unfold after_prepare. cbn [fin_exc set_queue]. rewrite E.
   cbn [is_some]. unfold id_matches in M.
   assert (G : exists s', query_or_next (set_queue s (remove_nth k (queue s))) h (MOrig (msg_cl s)) CResend
                 = (s', [Sent h (MOrig (msg_cl s)) CResend]) /\
-             attempts s' = attempts s ++ [{| a_host := h; a_prep := false; a_done := false |}] /\
+             attempts s' = attempts s ++ [{| a_host := h; a_prep := false; a_done := false; a_page := page_no s |}] /\
              queue s' = remove_nth k (queue s) /\ fin_exc s' = None).
   { unfold query_or_next. rewrite query_eq.
     change (pool_of (set_queue s (remove_nth k (queue s))) h) with (pool_of s h). rewrite P. cbn [reason].
